@@ -35,6 +35,10 @@ OID_PATTERNS = [b'abcdefgh', b'AAAAAAAA', b'\x7f' * 8, b'\x80' * 8, b'\xfe' + b'
                 b'12345678', b'\x00' * 7 + b'\x01', b' ' * 8, b'\n' * 8, b'q\x00q\x00q\x00q\x00', b'\x00abcdefg']
 
 
+# what __getstate__ of the plain missing-class objects returns (empty and zero states included)
+PLAIN_STATES = [{'a': 1}, [], 0, '', {}, False, [1, 2], 'abc', (), None, {'k': [0]}, 0.0]
+
+
 def strategy(tier):
     nmax = 8 if tier == 'quick' else 12
 
@@ -45,10 +49,13 @@ def strategy(tier):
         for i in range(n):
             kind = draw(st.sampled_from(KINDS))
             edges = draw(st.lists(st.tuples(st.integers(0, n - 1), st.sampled_from(WRAPS),
-                                            st.sampled_from(['s', 's', 's', 'w', 'x'])), max_size=3).map(lambda l: [list(e) for e in l]))
+                                            st.sampled_from(['s', 's', 's', 'w', 'x', 'wx'])), max_size=3).map(lambda l: [list(e) for e in l]))
             nodes.append({'kind': kind, 'edges': edges,
                           'root': draw(st.sampled_from([True, False, False])),
-                          'add': draw(st.sampled_from([False, False, False, True]))})
+                          'add': draw(st.sampled_from([False, False, False, True])),
+                          # a plain (non-persistent) object of a missing class inside the node's state, with this state
+                          'plain': draw(st.sampled_from([None, None] + list(range(len(PLAIN_STATES))))),
+                          'plain_na': draw(st.booleans())})
         nodes[0]['root'] = True
         oids = draw(st.lists(st.one_of(st.sampled_from(OID_PATTERNS).map(lambda b: list(b)),
                                        st.lists(st.integers(0, 255), min_size=8, max_size=8).filter(lambda l: l[0] < 255)),
@@ -89,9 +96,34 @@ def install_missing_module():
     Gone2 = type('Gone', (persistent.Persistent,), {})
     Gone2.__module__ = MISSING_MOD2
     mod2.Gone = Gone2
+
+    class GonePlain:
+        """not persistent: lives inside the state of a persistent object"""
+        state = None
+
+        def __getstate__(self):
+            return self.state
+
+        def __setstate__(self, state):
+            self.state = state
+    GonePlain.__module__ = MISSING_MOD
+    GonePlain.__qualname__ = 'GonePlain'
+    mod.GonePlain = GonePlain
+
+    class GonePlainNA(GonePlain):
+        def __new__(cls, tag):
+            o = object.__new__(cls)
+            o.tag = tag
+            return o
+
+        def __getnewargs__(self):
+            return (self.tag,)
+    GonePlainNA.__module__ = MISSING_MOD
+    GonePlainNA.__qualname__ = 'GonePlainNA'
+    mod.GonePlainNA = GonePlainNA
     sys.modules[MISSING_MOD] = mod
     sys.modules[MISSING_MOD2] = mod2
-    ns = types.SimpleNamespace(Gone=Gone, GoneNA=GoneNA, Gone2=Gone2, mod=mod, mod2=mod2)
+    ns = types.SimpleNamespace(Gone=Gone, GoneNA=GoneNA, Gone2=Gone2, GonePlain=GonePlain, GonePlainNA=GonePlainNA, mod=mod, mod2=mod2)
     return ns
 
 
@@ -232,6 +264,12 @@ def execute(case):
         spec = case['nodes']
         n = len(spec)
         objs = [make_node(sp['kind'], 'MARK%03d' % i, Gone) for i, sp in enumerate(spec)]
+        for i, sp in enumerate(spec):
+            if sp.get('plain') is not None:
+                ph = Gone.GonePlainNA('pa') if sp.get('plain_na') else Gone.GonePlain()
+                if PLAIN_STATES[sp['plain']] is not None:
+                    ph.state = PLAIN_STATES[sp['plain']]
+                payload_of(objs[i])['plain'] = ph
         strong = {i: [] for i in range(n)}      # expected ordinary references per node (target indices)
         storing = {i: [] for i in range(n)}     # edges that cause a new target to be stored (strong + weak)
         features = set()
@@ -241,6 +279,10 @@ def execute(case):
                 if typ == 'x':
                     items.append(wrap(how, xt[tgt % len(xt)]))
                     features.add('cross-db')
+                elif typ == 'wx':
+                    # weak AND cross-database
+                    items.append(wrap(how, WeakRef(xt[tgt % len(xt)])))
+                    features.add('weak-cross-db')
                 elif typ == 'w':
                     items.append(wrap(how, WeakRef(objs[tgt])))
                     storing[i].append(tgt)
@@ -405,6 +447,8 @@ def execute(case):
             legacy_records(s1, s2, spec, objs, strong, expected, oid_of, xt, out, features, db3.storage)
         if not out.failures:
             export_import(case, conn, tm, db1, spec, objs, strong, expected, oid_of, out, features)
+        if not out.failures:
+            through_placeholders(db1, Gone, spec, expected, oid_of, out, features)
     finally:
         remove_missing_modules()
         try:
@@ -415,6 +459,59 @@ def execute(case):
         except Exception:
             pass
     return finish(out, features)
+
+
+def through_placeholders(db1, Gone, spec, expected, oid_of, out, features):
+    """(5') "placeholders that keep their state", through a rewrite: while the classes are missing, the persistent
+    objects holding plain objects of a missing class are loaded, changed and committed (the placeholders are pickled
+    again); once the classes are back a fresh load yields objects of the real class with the original state"""
+    import transaction
+    from ZODB.broken import Broken
+    todo = [i for i in sorted(expected) if spec[i].get('plain') is not None and spec[i]['kind'] in ('N', 'A', 'M', 'L')]
+    if not todo:
+        return
+    remove_missing_modules()
+    tm_c = transaction.TransactionManager()
+    cc = db1.open(tm_c)
+    try:
+        cc.cacheMinimize()
+        for i in todo:
+            o = cc.get(oid_of[i])
+            p = payload_of(o)
+            if not isinstance(p['plain'], Broken):
+                out.fail((PROPERTY, 'round-trip', 'missing-class-not-broken', 'plain-object'),
+                         'node %d: the plain object of a missing class loads as %r' % (i, type(p['plain'])))
+                return
+            p['touched'] = True
+            o._p_changed = True
+        tm_c.commit()
+    finally:
+        tm_c.abort()
+        cc.close()
+    restore_missing_modules(Gone)
+    tm_d = transaction.TransactionManager()
+    cd = db1.open(tm_d)
+    try:
+        cd.cacheMinimize()
+        for i in todo:
+            ph = payload_of(cd.get(oid_of[i]))['plain']
+            want_cls = Gone.GonePlainNA if spec[i].get('plain_na') else Gone.GonePlain
+            want = PLAIN_STATES[spec[i]['plain']]
+            if type(ph) is not want_cls:
+                out.fail((PROPERTY, 'round-trip', 'through-placeholder', 'wrong-class'),
+                         'node %d: after a rewrite while its class was missing the plain object loads as %r' % (i, type(ph)))
+                return
+            got = getattr(ph, 'state', 'NO-STATE-ATTRIBUTE')
+            if (type(got), got) != (type(want), want) or (spec[i].get('plain_na') and getattr(ph, 'tag', None) != 'pa'):
+                out.fail((PROPERTY, 'round-trip', 'through-placeholder', 'state-lost'),
+                         'node %d: a plain object of a missing class with state %r (constructor arguments %r) was rewritten as '
+                         'placeholder while the class was missing; with the class back it loads with state %r, arguments %r' % (
+                             i, want, ('pa',) if spec[i].get('plain_na') else (), got, getattr(ph, 'tag', None)))
+                return
+        features.add('plain-missing-class-object-rewritten-as-placeholder')
+    finally:
+        tm_d.abort()
+        cd.close()
 
 
 def legacy_records(s1, s2, spec, objs, strong, expected, oid_of, xt, out, features, s_three=None):
